@@ -56,13 +56,14 @@ type Engine struct {
 	// PreferInline: execute callee bodies instead of applying their contracts (used to concretise
 	// counterexamples for replay; never used for proving).
 	PreferInline bool
+	EagerInit    []string // package paths whose initialisers are executed before every function
 }
 
 func (e *Engine) newExec(fn *ssa.Function, fc *FuncContract) *Exec {
 	x := &Exec{c: NewCtx(), prog: e.Prog, fset: e.Fset, heapInfo: map[string]heapInfo{}, defs: map[string]*Term{}, obls: map[string]*Obligation{},
 		contracts: e.Contracts, specs: e.Specs, top: fn, maxPaths: e.MaxPaths, maxInline: e.MaxInline,
 		loopInfos: map[*ssa.Function]*loopInfo{}, posText: map[*ssa.Function]map[token.Pos]string{}, srcCache: map[string][]byte{},
-		autoInv: map[autoKey]autoInvRec{}, fnCells: map[string]*FuncVal{}, locOf: map[string]*Loc{}, rawSorts: map[string]Sort{}, dynTags: map[string]int{},
+		autoInv: map[autoKey]autoInvRec{}, fnCells: map[string]*FuncVal{}, locOf: map[string]*Loc{}, axiomSeen: map[string]bool{}, rawSorts: map[string]Sort{}, dynTags: map[string]int{},
 		models: e.Models, inlineExt: e.InlineExt, usedContracts: map[string]bool{}, globFacts: map[string][]globFact{},
 		initDone: map[*ssa.Package]bool{}, globConstOK: map[*ssa.Global]bool{}, ghostVars: map[string]func(*specScope) Value{}, specBuiltins: map[string]func(*specScope, *ECall) Value{}}
 	x.c.Prog = e.Prog
@@ -114,6 +115,11 @@ func (e *Engine) GenVCs(fn *ssa.Function, fc *FuncContract) (res *FuncResult) {
 		x.ensureInit(fn.Origin().Pkg)
 	} else if fn.Parent() != nil && fn.Parent().Pkg != nil {
 		x.ensureInit(fn.Parent().Pkg)
+	}
+	for _, path := range append([]string{"io"}, e.EagerInit...) {
+		if p := e.Prog.ImportedPackage(path); p != nil {
+			x.ensureInit(p)
+		}
 	}
 	fr := &Frame{fn: fn, env: map[ssa.Value]Value{}, names: map[string]ssa.Value{}, loopSnap: map[*ssa.BasicBlock]*loopSnap{}, loopIter: map[*ssa.BasicBlock]int{}, fc: fc}
 	var args []Value
@@ -220,12 +226,14 @@ func (x *Exec) ensureInit(pkg *ssa.Package) {
 	written := writtenGlobals(pkg)
 	savedTop, savedName, savedNoPanic := x.top, x.topName, x.noPanic
 	savedPaths := x.paths
+	savedIns, savedFr, savedSt, savedPrefix := x.curIns, x.curFr, x.curSt, x.heapPrefix
 	x.inInit = true
 	x.initPkg = pkg
 	defer func() {
 		x.inInit = false
 		x.top, x.topName, x.noPanic = savedTop, savedName, savedNoPanic
 		x.paths = savedPaths
+		x.curIns, x.curFr, x.curSt, x.heapPrefix = savedIns, savedFr, savedSt, savedPrefix
 		if r := recover(); r != nil {
 			x.c.note("package initialiser of %s not executable symbolically (%v): its globals are unconstrained", pkg.Pkg.Path(), r)
 		}
@@ -289,6 +297,30 @@ func (x *Exec) ensureInit(pkg *ssa.Package) {
 		}()
 	}
 	x.initPC = append(x.initPC, final.pcList()...)
+	// everything a package initialiser allocated exists before the verified function runs
+	x.initPC = append(x.initPC, IntCmp("<=", final.alloc, x.c.Named("alloc0", SInt)))
+}
+
+// touchGlobal makes sure the initialiser of g's package has been executed; facts about constant
+// globals discovered late are asserted on the current state (constant globals are never written).
+func (x *Exec) touchGlobal(g *ssa.Global) {
+	pkg := g.Pkg
+	if pkg == nil || x.initDone[pkg] || x.inInit {
+		return
+	}
+	before := map[string]int{}
+	for k, fs := range x.globFacts {
+		before[k] = len(fs)
+	}
+	x.ensureInit(pkg)
+	for _, k := range sortedKeys(x.globFacts) {
+		if len(x.globFacts[k]) == before[k] {
+			continue
+		}
+		if h0 := x.initialHeapSym(k); h0 != nil {
+			x.assumeGlobFacts(nil, k, h0)
+		}
+	}
 }
 
 // writtenGlobals returns the globals of pkg that may be written outside the package initialiser
